@@ -1,8 +1,8 @@
 import PPLV.WR.BoxTransProofsBase
 import Mathlib.Tactic.NormNum
 /-!
-# C03 stage 4 — `refine_with_constraint` is NOT sound for `Double_Box`; `propagate_constraint`
-empties the box on the tautology `0 == 0`
+# C03 stage 4 — `refine_with_constraint` is NOT sound for `Double_Box`; before /repo dee742e
+`propagate_constraint` emptied the box on the tautology `0 == 0`
 
 1. `propagate_constraint_no_check` stores every coefficient `a_i` in the temporary boundary type
    (`assign_r(t_a, a_i, ROUND_DOWN/UP)`) and goes on with the *rounded* coefficient.  The fixed
@@ -15,10 +15,10 @@ empties the box on the tautology `0 == 0`
    satisfies the constraint, lies in the box, and is cut away.  The model computes the same interval
    (`fail_compute`, checked by the kernel).  This is why the soundness theorems of
    `BoxTransProofsPropagate.lean` carry the hypothesis `CoeffsExact`.
-2. The trivial case of `propagate_constraint_no_check` (Box_templates.hh:2633) calls `set_empty()`
-   when the inhomogeneous term is `0` and the type is not `NONSTRICT_INEQUALITY`: that includes the
-   EQUALITY `0 == 0`, which every point satisfies (the real `Rational_Box::propagate_constraint`
-   answers `false`, i.e. the empty box).
+2. HISTORICAL (repaired by /repo dee742e; KF-C03-64 fixed): the trivial case of
+   `propagate_constraint_no_check` called `set_empty()` when the inhomogeneous term is `0` and the type
+   is not `NONSTRICT_INEQUALITY`: that includes the EQUALITY `0 == 0`, which every point satisfies.
+   `propagateConstraintNoCheckBeforeFix` is the function as it was written.
 -/
 set_option linter.unusedVariables false
 namespace PPLV.WR.BoxT
@@ -85,15 +85,28 @@ theorem failCon_not_coeffsExact : ¬ CoeffsExact Cfg.dbl.TR failCon.e := by
   revert this
   decide +kernel
 
-/-! ### the tautology `0 == 0` -/
+/-! ### the tautology `0 == 0` (as written before /repo dee742e, KF-C03-64) -/
 
-/-- `propagate_constraint_no_check` on the equality `0 == 0` empties the box (all instantiations) -/
+/-- the old `propagate_constraint_no_check` on the equality `0 == 0` empties the box (all instantiations) -/
+theorem propagateConstraintNoCheckBeforeFix_trivialEq (cfg : Cfg) (b : Box) :
+    propagateConstraintNoCheckBeforeFix cfg b ⟨⟨[], 0⟩, .eq⟩ = b.setEmpty := rfl
+
+/-- … the repaired one leaves it alone, and empties it on the inconsistent `5 == 0` (which the old one missed) -/
 theorem propagateConstraintNoCheck_trivialEq (cfg : Cfg) (b : Box) :
-    propagateConstraintNoCheck cfg b ⟨⟨[], 0⟩, .eq⟩ = b.setEmpty := rfl
+    propagateConstraintNoCheck cfg b ⟨⟨[], 0⟩, .eq⟩ = b ∧ propagateConstraintNoCheck cfg b ⟨⟨[], 5⟩, .eq⟩ = b.setEmpty
+      ∧ propagateConstraintNoCheckBeforeFix cfg b ⟨⟨[], 5⟩, .eq⟩ = b := ⟨rfl, rfl, rfl⟩
 
-theorem propagateConstraintNoCheck_trivial_eq_fails :
+/-- the two differ on trivial constraints only -/
+theorem propagateConstraintNoCheckBeforeFix_eq (cfg : Cfg) (b : Box) (c : Con) (h : c.e.terms ≠ []) :
+    propagateConstraintNoCheckBeforeFix cfg b c = propagateConstraintNoCheck cfg b c := by
+  unfold propagateConstraintNoCheckBeforeFix propagateConstraintNoCheck
+  split
+  · rename_i ht; exact absurd ht h
+  · rfl
+
+theorem propagateConstraintNoCheck_trivial_eq_before_fix_fails :
     ¬ (∀ (b : Box) (c : Con) (x : Nat → Rat), c.e.WF b.dim → CoeffsExact Cfg.mpq.TR c.e → b.mem Cfg.mpq.p x →
-      c.holds x → (propagateConstraintNoCheck Cfg.mpq b c).mem Cfg.mpq.p x) := by
+      c.holds x → (propagateConstraintNoCheckBeforeFix Cfg.mpq b c).mem Cfg.mpq.p x) := by
   intro h
   have hm : (Box.univ Policy.rational 1).mem Cfg.mpq.p (fun _ => 0) := by
     refine ⟨rfl, fun k hk => ?_⟩
